@@ -28,6 +28,8 @@ DIMSETS = {
     "a3i0": [("a", "Age", [0, 1, 2], int)],  # a 1-d array whose items are exactly the default row numbers 0..n-1
     "m3u_r2": [("m", "Mixed", [1, "a", 2], None), ("r", "Region", ["r1", "r2"], str)],  # an untyped dimension whose items mix numbers and text
     "y1i_r2": [("y", "Year", [2020], int), ("r", "Region", ["r1", "r2"], str)],  # a single-item dimension whose item is an integer
+    "f3u_r2": [("f", "Fraction", [0.5, 1.5, 2.5], None), ("r", "Region", ["r1", "r2"], str)],  # untyped fractional items (a float index when held in the index)
+    "w2s_r2": [("w", "Material", ["  Steel", "Wood "], str), ("r", "Region", ["r1", "r2"], str)],  # text items with leading / trailing blanks (an indented label)
     "a3i0_e2": [("a", "Age", [0, 1, 2], int), ("e", "Element", ["", "Fe"], str)],  # labels that are falsy in Python
 }
 
